@@ -12,6 +12,12 @@ CLAIMED = {
             "Bounds: texts of <= 3 (quick) / <= 4 (thorough) characters, one representative character per UTF-8 width; Kani's std model; "
             "unwinding assertions on. Longer texts and >4 GiB offsets are outside the claim.",
             "DESIGN.md §2 C22"),
+    "C23": ("Kani/CBMC bounded model checking of LineIndex against a UTF-16 / LSP end-of-line reference model, per byte-width shape; native replay",
+            "Solver verdict that for every text of a bounded shape and every char-boundary offset the reported character is the UTF-16 length of the "
+            "line prefix (and get_offset inverts it), and that line_count/get_line agree with a reference splitter for LF, CRLF and lone CR.",
+            "Bounds: texts of <= 3 (quick) / <= 4 (thorough) characters; representatives U+00E9, U+20AC, U+1F600; UTF-16 is the oracle because the server "
+            "advertises no positionEncoding (checked syntactically on every run).",
+            "DESIGN.md §2 C23"),
 }
 
 NA = {}
